@@ -56,15 +56,14 @@ Theorem C10_failed_only_if : forall P s r x, reach P s ->
   exists e, took s = Some e /\ exists y, e = Wrap y /\ is_cancel y = false.
 Proof. exact failed_only_if_took. Qed.
 
-(* C10 liveness (as no-stuck-state, repaired code, children that behave like the bundled runnables):
-   once Run() has taken a failure it is never stuck before it has returned - in every reachable state
-   of every guarded schedule some non-environment label is enabled, unless a blocking child Stop()
-   was overtaken by a new Run of the same child (see C09_live_partial) *)
+(* C10 liveness (as no-stuck-state; repaired composite and lifecycle, children that behave like the
+   bundled runnables): once Run() has taken a failure it is never stuck before it has returned - in
+   every reachable state of every guarded schedule some non-environment label is enabled *)
 Theorem C10_run_returns : forall P s e,
-  fix_c09 P = true -> good_pool P -> good_children P ->
-  greach P s -> ~ overtaken P s -> took s = Some e -> (forall r, runt s <> TDone r) ->
+  fix_c09 P = true -> fix_lc P = true -> good_pool P -> good_children P ->
+  greach P s -> took s = Some e -> (forall r, runt s <> TDone r) ->
   exists l s', env_label l = false /\ step P s l = Some s'.
-Proof. exact run_returns_after_failure. Qed.
+Proof. exact run_returns_after_failure_lc. Qed.
 
 (* "all other children are stopped": Run's stopAllRunnables addresses exactly the entries of the
    configuration it reads, last first ... *)
@@ -131,13 +130,13 @@ Print Assumptions C10_no_reload_after_lock.
 (* non-vacuity: a schedule in which the second child, added by a growth reload beyond the initial
    channel capacity, fails; Run() takes the failure and returns ErrRunnableFailed joined with it *)
 Definition ex_pool : params :=
-  mkParams [mkSpec 0 UntilRunDone Free RWC; mkSpec 1 NonBlocking Free RWC] true true false.
+  mkParams [mkSpec 0 UntilRunDone Free RWC; mkSpec 1 NonBlocking Free RWC] true true true true.
 Definition ex_sched : list label :=
   [LRunCall; LRunBegin; LBootLock ORun; LCb ORun (CbSome [(0, 0)]%N); LBootLaunch ORun; LToRunning;
    LKRun 0 0%N;
    LReloadCall 0; LRlLock 0; LCb (ORel 0) (CbSome [(0, 1); (1, 1)]%N);
    LStopBegin (ORel 0); LWCall 0 0%N; LKExit 0 0%N None; LWUnblock 0; LWRet 0 0%N;
-   LStopJoin (ORel 0); LRlSetCfg 0; LBootLock (ORel 0); LBootLaunch (ORel 0); LRlFinish 0; LRlRet 0;
+   LStopCancel (ORel 0); LStopJoin (ORel 0); LRlSetCfg 0; LBootLock (ORel 0); LBootLaunch (ORel 0); LRlFinish 0; LRlRet 0;
    LKRun 1 0%N; LKRun 2 1%N;
    LKExit 2 1%N (Some (Join [Errs.Leaf 5; Wrap Canceled; Errs.Leaf 6]%N))].
 
@@ -145,10 +144,10 @@ Example C10_nonvacuous_benign_shape : is_cancel (Join [Errs.Leaf 5; Wrap Cancele
 Proof. reflexivity. Qed.
 
 Definition ex_sched2 : list label :=
-  firstn 23 ex_sched ++
+  firstn 24 ex_sched ++
   [LKExit 2 1%N (Some (Wrap (Join [Errs.Leaf 5; Errs.Leaf 6]%N))); LKSend 2; LSelErr; LTearLock; LStopBegin ORun;
    LWCall 1 1%N; LWRet 1 1%N; LWCall 2 0%N; LKExit 1 0%N None; LWUnblock 2; LWRet 2 0%N;
-   LStopJoin ORun; LRunExit].
+   LStopCancel ORun; LStopJoin ORun; LRunExit].
 
 Example C10_nonvacuous : exists s,
   run (step ex_pool) init ex_sched2 = Some s /\ fail_sent s = true /\
